@@ -23,6 +23,8 @@ PIDS = ['C%02d' % i for i in range(1, 21)]
 def one(path):
     from sa import facts, core
     name = os.path.basename(path.rstrip('/'))
+    if os.path.isfile(path):
+        name = os.path.basename(os.path.dirname(path)) + '/' + name
     patch = os.path.abspath(path if os.path.isfile(path) else os.path.join(path, 'patch.diff'))
     out = {'patch': name, 'checks': {}}
     d = tempfile.mkdtemp(prefix='gdstk-selftest.')
@@ -48,10 +50,13 @@ def one(path):
                 broken = [m for m in c2.mins if m[1] < m[2]] + [c for c in c2.controls if not c[1]]
                 if new:
                     out['checks'][pid] = ['%s %s @%s: %s' % (o.rule, o.key, o.loc, o.what[:160]) for o in new[:3]]
+                    out.setdefault('rules', {})[pid] = sorted({(o.rule, o.key) for o in new})
                 elif broken:
                     out['checks'][pid] = ['BROKEN %s' % str(broken[:2])[:200]]
+                    out.setdefault('rules', {})[pid] = [('BROKEN', str(broken[0])[:120])]
             except facts.AnalysisBroken as e:
                 out['checks'][pid] = ['BROKEN %s' % str(e)[:200]]
+                out.setdefault('rules', {})[pid] = [('BROKEN', str(e)[:120])]
             except Exception as e:
                 out['checks'][pid] = ['INTERNAL %s: %s' % (type(e).__name__, str(e)[:200])]
     finally:
